@@ -43,7 +43,8 @@ impl RetryStrategy for Doubling {
 
     fn after_failed_connect(&mut self) -> Duration {
         let ret = self.current;
-        self.current = std::cmp::min(2 * self.current, self.max);
+        // saturating: with a cap near Duration::MAX ("never") doubling would overflow
+        self.current = std::cmp::min(self.current.saturating_mul(2), self.max);
         ret
     }
 
